@@ -428,4 +428,61 @@ theorem copyDup_spec : ∀ (n ifrom ito : Nat) (ls : Array Nat), ifrom + n ≤ i
       by_cases hk2 : k = ito
       · subst hk2; rw [if_pos ⟨rfl, by omega⟩, if_pos (by omega)]; simp
       · rw [if_neg (by omega), if_neg (by omega)]
+
+/-- all subscripts of columns `jcol..kcol` of A in the order dsnode_dfs.c visits them -/
+def snodeRows (jcol kcol : Nat) (asub xaB xaE : Array Nat) : List Nat :=
+  (List.range' jcol (kcol + 1 - jcol)).flatMap (colRows asub xaB xaE)
+
+/-- decidable well-formedness of a call of `snodeDfs` -/
+structure SnodeWf (jcol kcol : Nat) (asub xaB xaE : Array Nat) (marker : Array Int) (lsub xlsub xprune : Array Nat) : Prop where
+  le : jcol ≤ kcol
+  rows_lt : ∀ i ∈ List.range' jcol (kcol + 1 - jcol), ∀ r ∈ colRows asub xaB xaE i, r < marker.size
+  fresh : ∀ x ∈ marker.toList, x ≠ (kcol : Int)
+  cap : xlsub.getD jcol 0 + (if jcol < kcol then 2 else 1) * (markerFilter (snodeRows jcol kcol asub xaB xaE) []).length ≤ lsub.size
+  xl : kcol + 1 < xlsub.size
+  xp : kcol < xprune.size
+
+instance (jcol kcol : Nat) (asub xaB xaE : Array Nat) (marker : Array Int) (lsub xlsub xprune : Array Nat) :
+    Decidable (SnodeWf jcol kcol asub xaB xaE marker lsub xlsub xprune) :=
+  decidable_of_iff (jcol ≤ kcol ∧ (∀ i ∈ List.range' jcol (kcol + 1 - jcol), ∀ r ∈ colRows asub xaB xaE i, r < marker.size) ∧
+    (∀ x ∈ marker.toList, x ≠ (kcol : Int)) ∧
+    xlsub.getD jcol 0 + (if jcol < kcol then 2 else 1) * (markerFilter (snodeRows jcol kcol asub xaB xaE) []).length ≤ lsub.size ∧
+    kcol + 1 < xlsub.size ∧ kcol < xprune.size)
+    ⟨fun ⟨a, b, c, d, e, f⟩ => ⟨a, b, c, d, e, f⟩, fun ⟨a, b, c, d, e, f⟩ => ⟨a, b, c, d, e, f⟩⟩
+
+/-- the state after the marker loop of `snodeDfs` -/
+def snodeLoop (jcol kcol : Nat) (asub xaB xaE : Array Nat) (marker : Array Int) (supno : Array Int) (lsub xlsub : Array Nat) : SnodeSt :=
+  (List.range' jcol (kcol + 1 - jcol)).foldl (snodeCol kcol (supno.getD jcol 0 + 1) asub xaB xaE)
+    { marker := marker, lsub := lsub, nextl := xlsub.getD jcol 0, supno := supno.setIfInBounds jcol (supno.getD jcol 0 + 1) }
+
+theorem snodeLoop_inv {jcol kcol : Nat} {asub xaB xaE : Array Nat} {marker : Array Int} {lsub xlsub xprune : Array Nat}
+    (supno : Array Int) (h : SnodeWf jcol kcol asub xaB xaE marker lsub xlsub xprune) :
+    SnodeInv kcol (xlsub.getD jcol 0) marker.size lsub.size lsub marker
+      (snodeLoop jcol kcol asub xaB xaE marker supno lsub xlsub) (markerFilter (snodeRows jcol kcol asub xaB xaE) []) := by
+  apply snodeCols_fold
+  · refine ⟨rfl, fun t ht => by simp at ht, ?_, fun _ _ => rfl, rfl, rfl, fun _ _ => rfl⟩
+    intro r hr
+    have : marker.getD r EMPTY ∈ marker.toList := by
+      simp only [Array.getD_eq_getD_getElem?, Array.getElem?_eq_getElem hr, Option.getD_some]
+      exact Array.getElem_mem_toList hr
+    simp only [List.not_mem_nil, iff_false]
+    exact h.fresh _ this
+  · exact h.rows_lt
+  · have := h.cap
+    unfold snodeRows at this
+    split at this <;> omega
+
+theorem snodeDfs_unfold (jcol kcol : Nat) (asub xaB xaE xprune : Array Nat) (marker : Array Int)
+    (xsup : Array Nat) (supno : Array Int) (lsub xlsub : Array Nat) :
+    let st := snodeLoop jcol kcol asub xaB xaE marker supno lsub xlsub
+    let first := xlsub.getD jcol 0
+    let o := snodeDfs jcol kcol asub xaB xaE xprune marker xsup supno lsub xlsub
+    o.marker = st.marker ∧
+    o.lsub = (if jcol < kcol then copyDup (st.nextl - first) first st.nextl st.lsub else st.lsub) ∧
+    o.xlsub = ((if jcol < kcol then (List.range' (jcol+1) (kcol - jcol)).foldl (fun x i => x.setIfInBounds i st.nextl) xlsub else xlsub).setIfInBounds (kcol+1)
+        (if jcol < kcol then st.nextl + (st.nextl - first) else st.nextl)) ∧
+    o.xprune = xprune.setIfInBounds kcol (if jcol < kcol then st.nextl + (st.nextl - first) else st.nextl) ∧
+    o.supno = st.supno.setIfInBounds (kcol+1) (supno.getD jcol 0 + 1) ∧
+    o.xsup = xsup.setIfInBounds (supno.getD jcol 0 + 1 + 1).toNat (kcol+1) := by
+  by_cases h : jcol < kcol <;> simp [snodeDfs, snodeLoop, h]
 end Slu.SymbArr
